@@ -34,7 +34,8 @@ HeadersOf(file) == LET h == FirstData(file) IN [j \in 1..Len(h) |-> CleanHeader(
 
 InitSt == [vars |-> <<>>, stopped |-> FALSE, skip |-> FALSE, advance |-> 0, valid |-> TRUE,
            matchCount |-> 0, curMatch |-> 0, scanCount |-> 0, printed |-> <<>>, frozen |-> FALSE,
-           memo |-> <<>>, cur |-> 0, built |-> FALSE, onceDone |-> {}]
+           memo |-> <<>>, cur |-> 0, built |-> FALSE, onceDone |-> {},
+           line |-> <<>>, headers |-> <<>>, limit |-> <<>>, appended |-> {}, sig |-> NoSig]
 \* The Matcher is built (and the match part validated) the first time a line reaches matches();
 \* counter.name() initialises its variable to 0 at that point (Counter.check_valid).
 RECURSIVE SetIfNone(_, _)
@@ -43,7 +44,7 @@ SetIfNone(vars, inits) == IF inits = <<>> THEN vars
                                          ELSE SetVar(vars, Head(inits).n, Head(inits).v), Tail(inits))
 Build(case, st) == IF st.built THEN st
                    ELSE [st EXCEPT !.built = TRUE, !.vars = SetIfNone(st.vars, case.prog.initVars)]
-InitS(case) == [st |-> InitSt, returned |-> <<>>, unmatched |-> <<>>,
+InitS(case) == [st |-> [InitSt EXCEPT !.headers = HeadersOf(case.file)], returned |-> <<>>, unmatched |-> <<>>, lines |-> <<>>,
                 k |-> 0, pc |-> IF case.cfg.noRun \/ Len(case.file) = 0 THEN "done" ELSE "iter",
                 kind |-> "init"]
 
@@ -59,13 +60,13 @@ Ctx(case, k) ==
 Consider(case, st, k) ==
   LET file == case.file  N == Len(file)  line == file[k + 1]  ctx == Ctx(case, k) IN
   IF k = N - 1 /\ line = <<>> THEN \* the path is frozen first, so a Matcher built only now cannot initialise variables any more
-       [st |-> DoLasts(1, [st EXCEPT !.frozen = TRUE, !.built = TRUE,
+       [st |-> DoLasts(1, [st EXCEPT !.frozen = TRUE, !.built = TRUE, !.line = <<>>,
                                     !.memo = [j \in 1..Len(ctx.comps) |-> "n"]], ctx),
         ret |-> FALSE, kind |-> "blanklast"]
   ELSE IF line = <<>> THEN [st |-> st, ret |-> FALSE, kind |-> "blank"]
   ELSE IF ~In(case.prog.scan, k) THEN [st |-> st, ret |-> FALSE, kind |-> "unscanned"]
   ELSE
-    LET st1 == [st EXCEPT !.scanCount = st.scanCount + 1, !.curMatch = st.matchCount]
+    LET st1 == [st EXCEPT !.scanCount = st.scanCount + 1, !.curMatch = st.matchCount, !.line = LineOf(line)]
         m == IF st1.advance > 0
                THEN [matched |-> FALSE, st |-> [st1 EXCEPT !.advance = st1.advance - 1]]
                ELSE MatchLine(Build(case, st1), ctx)
@@ -79,14 +80,41 @@ Step(case, S) ==
   LET c == Consider(case, S.st, S.k)
       ret2 == c.ret
       returned2 == IF ret2 THEN Append(S.returned, S.k) ELSE S.returned
+      \* the line handed to the caller: the record as the match part left it, projected by collect()
+      lines2 == IF ret2 THEN Append(S.lines, TextsOf(Limited(c.st))) ELSE S.lines
       unmatched2 == IF ~ret2 /\ case.cfg.collecting /\ case.cfg.keepUnmatched
                       THEN Append(S.unmatched, S.k) ELSE S.unmatched
       early == case.cfg.nexts > 0 /\ Len(returned2) = case.cfg.nexts /\ ret2   \* collect(nexts=n) breaks
       fin == c.st.stopped \/ S.k + 1 = Len(case.file)
       \* finalize() freezes the path unless the generator was abandoned by collect(nexts=n)
       st2 == IF fin /\ ~early THEN [c.st EXCEPT !.frozen = TRUE] ELSE c.st
-  IN [st |-> st2, returned |-> returned2, unmatched |-> unmatched2, k |-> S.k + 1,
+  IN [st |-> st2, returned |-> returned2, unmatched |-> unmatched2, lines |-> lines2, k |-> S.k + 1,
       pc |-> IF fin \/ early THEN "done" ELSE "iter", kind |-> c.kind]
+
+\* ---- comparing a recorded _consider_line event with a specified step (RunTrace, GroupRun) -----------
+MemoOf(st) == st.memo
+\* the fields of one event, in the order they are compared
+Diff(E, ev, before) ==
+  IF ev.k # before.k THEN "k"
+  ELSE IF ev.exc # "" THEN "raised:" \o ev.exc
+  ELSE IF ev.ret # (Len(E.returned) > Len(before.returned)) THEN "returned"
+  ELSE IF ev.scan_count # E.st.scanCount THEN "scan_count"
+  ELSE IF ev.match_count # E.st.matchCount THEN "match_count"
+  ELSE IF ev.stopped # E.st.stopped THEN "stopped"
+  ELSE IF ev.advance # E.st.advance THEN "advance"
+  ELSE IF ev.valid # E.st.valid THEN "valid"
+  ELSE IF E.kind = "match" /\ ev.votes # MemoOf(E.st) THEN "votes"
+  ELSE IF ~VarsEq(ev.vars, NormVars(E.st.vars)) THEN "vars"
+  ELSE IF ev.printed # E.st.printed THEN "printed"
+  ELSE "ok"
+
+\* what the specification expected for the field that differs (for the replay file)
+Expected(E, f) ==
+  CASE f = "vars" -> NormVars(E.st.vars)
+    [] f = "votes" -> MemoOf(E.st)
+    [] f = "printed" -> E.st.printed
+    [] f = "returned" -> <<E.returned>>
+    [] OTHER -> <<E.st.scanCount, E.st.matchCount, E.st.stopped, E.st.advance, E.st.valid>>
 
 \* ---- properties over a whole behaviour are stated in MC_Run / RunTrace ------------------------------
 Increasing(s) == \A i \in 1..(Len(s) - 1) : s[i] < s[i + 1]
